@@ -37,7 +37,9 @@ def chunk {β : Type} (l : List β) (n : Nat) : List (List β) :=
 def lettersOf (t : String) : List String := if t == "-" then [] else splitC t ','
 
 def parseCls? : String → Option StockClass
-  | "fds" => some .flowDriven | "idsm" => some .inflowDriven | "sdsm" => some .stockDriven | _ => none
+  | "fds" => some .flowDriven | "idsm" => some .inflowDriven | "sdsm" => some .stockDriven
+  -- a user's subclass of a stock class: the same fields, hence the same treatment
+  | "idsmsub" => some .inflowDriven | "sdsmsub" => some .stockDriven | _ => none
 
 def showCls : StockClass → String
   | .flowDriven => "fds" | .inflowDriven => "idsm" | .stockDriven => "sdsm"
